@@ -420,6 +420,10 @@ func CollectionOf(v any, adsl ...func()) *expr.ResultTypeExpr {
 //		})
 //	})
 func Reference(t expr.DataType) {
+	if t == nil {
+		eval.InvalidArgError("object type", t)
+		return
+	}
 	if !expr.IsObject(t) {
 		eval.ReportError("argument of Reference must be an object, got %s", t.Name())
 		return
@@ -456,6 +460,10 @@ func Reference(t expr.DataType) {
 //	    Extend(CreateBottlePayload) // Adds attributes "name" and "vintage"
 //	})
 func Extend(t expr.DataType) {
+	if t == nil {
+		eval.InvalidArgError("object type", t)
+		return
+	}
 	if !expr.IsObject(t) {
 		eval.ReportError("argument of Extend must be an object, got %s", t.Name())
 		return
